@@ -457,7 +457,10 @@ func curateFailedPoints(allIds []uuid.UUID, successIds []uuid.UUID, isCompleteRe
 	// what failed, we can just say more concisely what succeeded to hopefully
 	// reduce traffic size.
 	successSize := len(successIds)
-	failedPoints := make([]FailedPoint, 0, len(allIds)-successSize)
+	// A point id can be reported by more than one shard (an insert of an
+	// existing id that was routed to another shard is accepted), so there may
+	// be more successes than ids.
+	failedPoints := make([]FailedPoint, 0, max(len(allIds)-successSize, 0))
 	for _, id := range allIds {
 		_, found := slices.BinarySearchFunc(successIds, id, func(a, b uuid.UUID) int {
 			return bytes.Compare(a[:], b[:])
